@@ -392,4 +392,36 @@ def wfL (tbl : Table) (exp : ExpTable) (strict : List String) : List Node → Bo
     (if c.kind == nilKind then !strict.contains c.field else wf tbl exp c) && wfL tbl exp strict cs
 end
 
+/-! ## The table the expectation demands (Spec side, independent of the source)
+
+When the source's table stops agreeing with the expectation on some kind (`kindOk` fails), `wf`
+over the source's table is false for every tree holding that kind and the Spec would fall
+silent exactly where the source went wrong. `repair` replaces the entries of such kinds by the
+canonical method shape the expectation prescribes, so that well-formedness — hence the Spec —
+of a tree can be decided without trusting the source's entry for the offending kind. On a
+sound table `repair` is the identity (obligation `repair_is_identity`). -/
+
+/-- The canonical `IsReadOnly` shape of a kind with this expectation. -/
+def canonCls (e : Expect) : Cls :=
+  match e with
+  | ⟨.none, []⟩ => .const true
+  | ⟨.none, runs⟩ => .fields runs
+  | ⟨.free, _⟩ => .const true
+  | ⟨.write, _⟩ => .const false
+  | ⟨.byFlag, []⟩ => .attr
+  | ⟨.byFlag, f :: _⟩ => .ifSet f false
+
+/-- Replace the entry of every kind that is unsound (and not a listed exception) by the
+canonical shape. Soundness is judged against the *original* table (`T`), so a kind that embeds
+a repaired kind is repaired itself. -/
+def repairWith (T : Table) (exp : ExpTable) (exc : List String) : Table → Table
+  | [] => []
+  | (k, c) :: rest =>
+    (if kindOk T exp k || exc.contains k then (k, c)
+     else match lookupE exp k with
+       | some e => (k, canonCls e)
+       | none => (k, c)) :: repairWith T exp exc rest
+
+def repair (T : Table) (exp : ExpTable) (exc : List String) : Table := repairWith T exp exc T
+
 end Gms.ReadOnly
